@@ -278,7 +278,7 @@ def k4(ctx, kr):
         for nm, okb in st['entries']:
             out.append(ok(Agg('DirEntry', [Str(base + '/' + nm)])) if M.branch(okb) else err(Opaque('io::Error')))
         return ok(IterV(out))
-    # what a directory entry is: a regular file, a symbolic link to a regular file, or a sub-directory.  DirEntry::file_type / DirEntry::metadata /
+    # what a directory entry is: a regular file, a symbolic link to a regular file, a sub-directory, or a symbolic link to a directory.  DirEntry::file_type / DirEntry::metadata /
     # fs::symlink_metadata do not follow links; Path::is_file / is_dir / fs::metadata do.
     def entry_kind(M, v):
         while isinstance(v, Ref): v = M.deref(v)
@@ -290,12 +290,12 @@ def k4(ctx, kr):
         k = entry_kind(M, a[0])
         if k is None: return NotImplemented
         follow = not re.search(r'DirEntry::(file_type|metadata)$|symlink_metadata', c)
-        return ok(Agg('Metadata', [{'file': 1, 'link': 1 if follow else 2, 'dir': 0}[k]]))
+        return ok(Agg('Metadata', [{'file': 1, 'link': 1 if follow else 2, 'dir': 0, 'dirlink': 0 if follow else 2}[k]]))
     def st_pathis(M, fr, c, a):
         k = entry_kind(M, a[0])
         if k is None: return NotImplemented
         what = c.rsplit('::', 1)[1]
-        return {'is_file': k in ('file', 'link'), 'is_dir': k == 'dir', 'is_symlink': k == 'link', 'exists': True}[what]
+        return {'is_file': k in ('file', 'link'), 'is_dir': k in ('dir', 'dirlink'), 'is_symlink': k in ('link', 'dirlink'), 'exists': True}[what]
     def st_meta2(M, fr, c, a):
         r = st_ftype(M, fr, c, a)
         return st_meta(M, fr, c, a) if r is NotImplemented else r
@@ -321,8 +321,8 @@ def k4(ctx, kr):
                 ents.append((NAMES[j] if i == 0 else '%d%s' % (i, NAMES[j]), M.fresh_bool('entry_ok%d' % i)))
             st['entries'] = ents; st['kinds'] = {}
             for i, (nm, okb) in enumerate(ents):
-                kv = M.fresh_bv('entry_kind%d' % i, 8); M.declare_domain(kv, [0, 1, 2])
-                st['kinds'][nm] = 'file' if M.branch(kv == 0) else ('link' if M.branch(kv == 1) else 'dir')
+                kv = M.fresh_bv('entry_kind%d' % i, 8); M.declare_domain(kv, [0, 1, 2, 3])
+                st['kinds'][nm] = 'file' if M.branch(kv == 0) else ('link' if M.branch(kv == 1) else ('dir' if M.branch(kv == 2) else 'dirlink'))
             return M.call_fn(key, [Ref(Cell(Str('dir')))])
         def on_path(M, pr):
             kr.paths += 1
@@ -334,7 +334,7 @@ def k4(ctx, kr):
             names = [nm for nm, okb in st['entries']]
             kinds = st['kinds']
             # the files in the directory: regular files and links to regular files (what `check dir/*` hands over one by one); sub-directories are not files of the directory
-            readable = [nm for nm, okb in st['entries'] if tv(okb) and kinds[nm] != 'dir']
+            readable = [nm for nm, okb in st['entries'] if tv(okb) and kinds[nm] not in ('dir', 'dirlink')]
             wit = {'directory_entries': ['%s (%s)' % (nm, kinds[nm]) for nm in names], 'files': readable}
             if pr.panic: _add(kr, 'C13/K4/panic', 'enumerate_files panics: ' + pr.panic.msg[:60], wit, None); return
             res = pr.result
@@ -347,14 +347,14 @@ def k4(ctx, kr):
                     _add(kr, role, 'a directory holding %s is expanded to %s: the files %s are never checked' % (wit['directory_entries'], got, missing), wit, ('cli_directory', (missing[:1] or readable[:1], [kinds[x] for x in (missing[:1] or readable[:1])])))
                 else:
                     _add(kr, 'C13/K4/sub-directory-handed-to-the-project', 'a directory holding %s is expanded to %s: %s is not a file of the directory (checking the list of its files succeeds or fails on the files alone)' % (wit['directory_entries'], got, extra), wit,
-                         ('cli_directory', (['good_file.st'] + extra[:1], ['file', 'dir'])))
+                         ('cli_directory', (['good_file.st'] + extra[:1], ['file', kinds.get(extra[0], 'dir') if extra else 'dir'])))
             elif len(kr.validate) < 2 and any(not x.endswith('.st') for x in readable): kr.validate.append(('cli_directory', ([x for x in readable if not x.endswith('.st')][:1], ['file'])))
             if len(kr.samples) < 2: kr.samples.append({'entries': names, 'expanded_to': got})
         M.explore(entry, on_path, max_paths=20000)
     kr.queries += M.stats['smt']
     kr.functions = fn_paths(P, M.encoded); kr.models = sorted(M.models_used)
     kr.stubs = ['std::fs::{canonicalize, metadata, read_dir} and DirEntry::path as nondeterministic environment (Ok/Err per call, entry names symbolic over %s)' % NAMES, 'Path::extension / OsStr::to_str by documented contract']
-    kr.bounds = 'one directory argument with 1..2 entries, each entry name a symbolic choice out of %d names (extensions st / ST / iec / txt / none / dot-file), each entry a regular file, a symbolic link to a file or a sub-directory, each entry readable or not' % len(NAMES)
+    kr.bounds = 'one directory argument with 1..2 entries, each entry name a symbolic choice out of %d names (extensions st / ST / iec / txt / none / dot-file), each entry a regular file, a symbolic link to a file, a sub-directory or a symbolic link to a directory, each entry readable or not' % len(NAMES)
     kr.exhaustive = True
     kr.outside = ['what is inside a sub-directory; dangling links']
 
@@ -369,9 +369,11 @@ def _replay_cli_directory(names, kinds=None):
             nm = re.sub(r'^\d', '', nm) if nm[0].isdigit() else nm
             if k == 'dir':
                 os.mkdir(os.path.join(d, nm)); open(os.path.join(d, nm, 'inner.st'), 'w').write(good)
+            elif k == 'dirlink':
+                os.mkdir(os.path.join(other, nm)); open(os.path.join(other, nm, 'inner.st'), 'w').write(good); os.symlink(os.path.join(other, nm), os.path.join(d, nm))
             elif k == 'link':
                 open(os.path.join(other, nm), 'w').write(bad); os.symlink(os.path.join(other, nm), os.path.join(d, nm))
-            else: open(os.path.join(d, nm), 'w').write(good if 'dir' in (kinds or []) else bad)
+            else: open(os.path.join(d, nm), 'w').write(good if ('dir' in (kinds or []) or 'dirlink' in (kinds or [])) else bad)
         # the files in the directory: regular files and links to them
         files = sorted(f for f in os.listdir(d) if os.path.isfile(os.path.join(d, f)))
         r_dir = subprocess.run([ctx.ironplcc_path(), 'check', d], capture_output=True, text=True)
